@@ -952,7 +952,6 @@ def report(ctx, fails, res, do_shrink=True):
                           found_input=True, signature=sig,
                           what=f"{c['fn']}: build_octree_node drops stored point(s) {lost[:3]} (float "
                                'rounding on a cell border), searches cannot see them')
-            n += 1
             continue
         sig = {'fn': c['fn'], 'reason': reason.split(':')[0], 'family': fam}
         key = json.dumps(sig, sort_keys=True)
@@ -1097,37 +1096,44 @@ def main(ctx):
                 ctx.notes['translator_validation'] = {'error': repr(e)[:300]}
 
     n_knn, n_hd, n_hop, nmax = (30, 16, 40, 10) if quick else (420, 100, 400, 14)
-    calls = []
-    # corpus first
-    corpus = sorted((lib.VERIF / 'corpus' / PID).glob('*.json')) if (lib.VERIF / 'corpus' / PID).exists() else []
-    for f in corpus:
-        c = json.loads(f.read_text())
-        c['id'] = len(calls)
-        c['family'] = 'corpus:' + f.stem
-        calls.append(c)
-    knn_calls = gen_knn_calls(ctx, n_knn, nmax)
-    for c in knn_calls:
-        c['id'] = len(calls)
-        calls.append(c)
-    hd_calls = gen_hd_calls(ctx, n_hd, nmax, len(calls))
-    calls += hd_calls
-    hop_calls = gen_hop_calls(ctx, n_hop, len(calls))
-    calls += hop_calls
-    ctx.log(f'{len(calls)} implementation calls ({len(corpus)} corpus)')
-    res = run_impl_parallel(ctx, calls, 1 if quick else 4, 'main')
-    ctx.log('implementation done, max call time %.2fs' % max(r['t'] for r in res.values()))
 
-    fails = []
-    fails += check_knn(ctx, [c for c in calls if c['fn'] == 'knn'], res, with_model=model_ok)
-    ctx.log('knn checked')
-    fails += check_hd(ctx, [c for c in calls if c['fn'] == 'hd'], res, with_model=model_ok)
-    ctx.log('hausdorff checked')
-    fails += check_hop(ctx, [c for c in calls if c['fn'] == 'hop'], res)
-    ctx.log('hop graph checked')
-    ctx.corr['cases'] = ctx.evaluations
-    ctx.corr['disagreements'] = len(fails)
+    def run_stream(n_knn, n_hd, n_hop, tag, with_corpus):
+        calls = []
+        corpus = sorted((lib.VERIF / 'corpus' / PID).glob('*.json')) \
+            if with_corpus and (lib.VERIF / 'corpus' / PID).exists() else []
+        for f in corpus:
+            c = json.loads(f.read_text())
+            c['id'] = len(calls)
+            c['family'] = 'corpus:' + f.stem
+            calls.append(c)
+        for c in gen_knn_calls(ctx, n_knn, nmax):
+            c['id'] = len(calls)
+            calls.append(c)
+        calls += gen_hd_calls(ctx, n_hd, nmax, len(calls))
+        calls += gen_hop_calls(ctx, n_hop, len(calls))
+        ctx.log(f'[{tag}] {len(calls)} implementation calls ({len(corpus)} corpus)')
+        res = run_impl_parallel(ctx, calls, 1 if quick else 4, tag)
+        ctx.log('implementation done, max call time %.2fs' % max(r['t'] for r in res.values()))
+        fails = []
+        fails += check_knn(ctx, [c for c in calls if c['fn'] == 'knn'], res, with_model=model_ok)
+        ctx.log('knn checked')
+        fails += check_hd(ctx, [c for c in calls if c['fn'] == 'hd'], res, with_model=model_ok)
+        ctx.log('hausdorff checked')
+        fails += check_hop(ctx, [c for c in calls if c['fn'] == 'hop'], res)
+        ctx.log('hop graph checked')
+        ctx.corr['cases'] = ctx.evaluations
+        ctx.corr['disagreements'] = ctx.corr.get('disagreements', 0) + len(fails)
+        return report(ctx, fails, res)
+
+    n_bad = run_stream(n_knn, n_hd, n_hop, 'main', True)
     ctx.notes['search_evaluations'] = ctx.evaluations
-    n_bad = report(ctx, fails, res)
+    if n_bad == 0 and not (tie_ok and proof_ok and valid_ok):
+        # a proof / the translation broke and the regular stream shows no failing input:
+        # search with a larger budget before reporting `no-failing-input-found`
+        ctx.log('proof or tie broken: extended search for a failing input')
+        n_bad = run_stream(60, 60, 20, 'search', False)
+        ctx.notes['extended_search'] = {'ran': True, 'failures_found': n_bad}
+        ctx.notes['search_evaluations'] = ctx.evaluations
 
     if not tie_ok and n_bad == 0:
         ctx.violation('tie-broken', {'translator_error': ctx.notes.get('translator_error')},
